@@ -1127,6 +1127,12 @@ class SCFGIO:
         for region in scfg_graph.values():
             if isinstance(region, RegionBlock):
                 assert region.subregion is not None
+                if exiting is None and isinstance(region.parent_region, str):
+                    # The outermost region is not a block of the dictionary,
+                    # the regions directly below it carry its name.
+                    object.__setattr__(
+                        scfg.region, "name", region.parent_region
+                    )
                 object.__setattr__(region, "parent_region", scfg.region)
                 object.__setattr__(region.subregion, "region", region)
                 for inner in region.subregion.graph.values():
